@@ -11,11 +11,13 @@ package memtable
 //@ ghost field (*MemTablePool) inserts int
 
 //@ func (*MemTablePool).Put
+//@   requires p.active != nil && p.active.skipList != nil && lockstate(p.mu) == 0 && lockstate(p.active.mu) == 0
 //@   ensures[C08] p.maxStamp == max(old(p.maxStamp), seqNum) && p.lastStamp == seqNum && p.inserts == old(p.inserts) + 1
 //@   ghost exit: p.maxStamp = max(p.maxStamp, seqNum)
 //@   ghost exit: p.lastStamp = seqNum
 //@   ghost exit: p.inserts = p.inserts + 1
 //@ func (*MemTablePool).Delete
+//@   requires p.active != nil && p.active.skipList != nil && lockstate(p.mu) == 0 && lockstate(p.active.mu) == 0
 //@   ensures[C08] p.maxStamp == max(old(p.maxStamp), seqNum) && p.lastStamp == seqNum && p.inserts == old(p.inserts) + 1
 //@   ghost exit: p.maxStamp = max(p.maxStamp, seqNum)
 //@   ghost exit: p.lastStamp = seqNum
@@ -107,3 +109,16 @@ package memtable
 //@   ensures[C01,C18] !old(m.immutable) && old(Wins(m.skipList, bstr(key), seqNum)) ==> MTDel(m, bstr(key)) && m.skipList.seq[bstr(key)] == seqNum
 //@   ensures[C01,C18] forall k bstr :: k != bstr(key) ==> m.skipList.has[k] == old(m.skipList.has[k]) && m.skipList.del[k] == old(m.skipList.del[k]) && m.skipList.val[k] == old(m.skipList.val[k]) && m.skipList.seq[k] == old(m.skipList.seq[k])
 //@   ensures[C18] m.immutable == old(m.immutable)
+
+//@ func NewMemTable
+//@   ensures[C01,C18] result != nil && fresh(result) && result.skipList != nil && !result.immutable && lockstate(result.mu) == 0 && (forall k bstr :: !MTHas(result, k))
+
+// Switching makes the active table the newest immutable one and installs a fresh empty active table:
+// what any key reads as through the pool is unchanged.
+//@ func (*MemTablePool).SwitchToNewMemTable
+//@   requires p.active != nil && lockstate(p.mu) == 0
+//@   modifies p.active, p.immutables, p.flushPending, p.active.immutable, all(Mem *MemTable)
+//@   ensures[C01,C06] result == old(p.active) && result.immutable && p.active != nil && fresh(p.active) && p.active.skipList != nil && !p.active.immutable && lockstate(p.active.mu) == 0
+//@   ensures[C01] forall k bstr :: !MTHas(p.active, k)
+//@   ensures[C01] len(p.immutables) == old(len(p.immutables)) + 1 && p.immutables[len(p.immutables) - 1] == old(p.active)
+//@   ensures[C01] forall i int :: 0 <= i && i < old(len(p.immutables)) ==> p.immutables[i] == old(p.immutables[i])
